@@ -19,6 +19,7 @@ import (
 	"os"
 	"os/exec"
 	"path/filepath"
+	"sort"
 	"strings"
 	"sync"
 	"time"
@@ -423,7 +424,13 @@ func checkC18Tx(t *Toks) string {
 		{"TxHash", func() { tx.TxHash() }},
 		{"WitnessHash", func() { tx.WitnessHash() }},
 		{"HasWitness", func() { tx.HasWitness() }},
-		{"Weight", func() { tx.Weight(); tx.VirtualSize(); tx.DiscountWeight(); tx.DiscountVirtualSize(); tx.SerializeSize(true, false) }},
+		{"Weight", func() {
+			tx.Weight()
+			tx.VirtualSize()
+			tx.DiscountWeight()
+			tx.DiscountVirtualSize()
+			tx.SerializeSize(true, false)
+		}},
 		{"CountIssuances", func() { tx.CountIssuances() }},
 		{"HashForSignature", func() {
 			if nin > 0 {
@@ -490,7 +497,11 @@ func c18Scalar(r *Rng) []byte {
 }
 
 func c18Catalogue() []c18Fn {
-	c18SeedsOnce.Do(func() { c18Seeds = loadSeeds() })
+	c18SeedsOnce.Do(func() {
+		c18Seeds = loadSeeds()
+		sort.Strings(c18Seeds.psetV0B64) // the fixture walk ranges over maps: fix the order
+		sort.Strings(c18Seeds.psetV2B64)
+	})
 	hex32 := func(g *c18Guard, n string) []byte { return g.b(n, g.r.Bytes(32)) }
 	fns := []c18Fn{
 		{"transaction.ComputeEntropy", false, func(g *c18Guard) (string, [][]byte) {
